@@ -98,6 +98,18 @@ def run(tier, seed, driver):
     return res
 
 
+def backup_network():
+    """the network in the backup file: two generated nodes and the gateway's own node (id 0)"""
+    from mysensors.sensor import Sensor
+    other = pu.direct_state(random.Random(5), size=2, exotic=False)
+    if 0 not in other:
+        other[0] = Sensor(0)
+        other[0].type, other[0].sketch_name = 18, "gateway"
+        other[0].add_child_sensor(0, 6, "own")
+        other[0].children[0].values[0] = "21.0"
+    return other
+
+
 def gen_states(rng, nfiles):
     states = []
     # one built through a real gateway, the rest directly (exotic text, ids 0/254/255, no values ...)
@@ -116,19 +128,18 @@ def _run(res, rng, tier, driver, work):
     os.makedirs(d)
     scratch = os.path.join(work, "scratch")
     os.makedirs(scratch)
-    other = pu.direct_state(random.Random(5), size=2, exotic=False)     # the network in the backup
+    other = backup_network()
     for fmt in pu.FORMATS:
         main = os.path.join(d, f"state.{fmt}")
         bak = main + ".bak"
         bak_good = pu.save_bytes(other, scratch, fmt)
         pu.put(os.path.join(scratch, f"b.{fmt}"), bak_good)
-        _, sb = pu.fresh_load(os.path.join(scratch, f"b.{fmt}"))
-        p_bak = pu.project(sb)
+        # what the files hold is judged against the networks they were written from, not against another load
+        p_bak = pu.project_reset(other)
         for si, sensors in enumerate(gen_states(rng, nfiles)):
             good = pu.save_bytes(sensors, scratch, fmt)
             pu.put(os.path.join(scratch, f"m.{fmt}"), good)
-            _, sm = pu.fresh_load(os.path.join(scratch, f"m.{fmt}"))
-            p_main = pu.project(sm)
+            p_main = pu.project_reset(sensors)
             n = len(good)
             res.count(f"file-bytes:{fmt}", n)
             damaged = [("trunc", k, good[:k]) for k in range(n)] + [("zero", n, b"\x00" * n)]
@@ -331,7 +342,7 @@ def replay(payload):
         good = pu.save_bytes(sensors, work, fmt)
         main = os.path.join(work, f"state.{fmt}")
         if r.get("via") == "start_persistence":
-            other = pu.direct_state(random.Random(5), size=2, exotic=False)
+            other = backup_network()
             bak_good = pu.save_bytes(other, work, fmt)
             pu.put(main, None if r["main_len"] is None else (good[:r["main_len"]] if r["main_len"] < len(good) else b"\x00" * r["main_len"]))
             pu.put(main + ".bak", None if r["backup_len"] is None else bak_good[:r["backup_len"]])
